@@ -58,6 +58,7 @@ def run(F, rep, tier):
     driver_decision_rule(F, rep, T)
     lexer_mode_rule(F, rep)
     skipper_rule(F, rep)
+    layout_siblings_rule(F, rep)
     char_class_rule(F, rep)
     binary_action_rule(F, rep)
     a = lalr.build_lalr(g)
@@ -907,3 +908,51 @@ def skipper_rule(F, rep):
         rep.undecided(rid, "bounded", "the comment skipper is called in a `for` loop (%s): the number of skipped comments is bounded by the range" % "; ".join(fors))
     else:
         rep.ok(rid, "skipper", "every call of the comment skipper is inside a loop of its caller chain: %s" % "; ".join(c for c, _ in chains))
+
+
+def layout_siblings_rule(F, rep):
+    """R06.11 (same clause as R06.10): between two tokens white space *and* comments are layout.  Besides the skipper in front of the token dispatch the lexer has other places
+    that step over white space - the look-ahead that decides whether `function` / `list` / `context` is a keyword, the white-space state of the name collector.  A place that
+    advances over characters of the white-space class but knows nothing of comments (neither calls the comment skipper nor tests for a comment start) treats `/* c */` as a
+    token there: a contradiction between siblings (one path skips comments, the other does not), reported per function.  The skipper pair itself - the functions called in one
+    loop with the comment skipper - is the reference."""
+    rid = rep.rule("R06.11", "every place of the lexer that steps over white space between tokens also steps over comments (look-ahead helpers and the name collector agree with the skipper)")
+    LEX = "dmntk_feel_parser::lexer::Lexer::"
+    meths = {n: h for n, h in F.hir.items() if n.startswith(LEX) and h.get("kind") == "method"}
+    skipper = next((n for n in meths if n.endswith("::consume_comment")), None)
+    if skipper is None:
+        rep.missing_anchor(rid, "the comment skipper of the lexer (consume_comment)")
+        return
+    # the functions that run in one loop with the skipper are its partners (consume_whitespace)
+    partners = {skipper}
+    for n, h in meths.items():
+        for lp, _ in find_hir(h["body"], lambda x: x.get("k") == "Loop"):
+            callees = {c.get("callee") for c, _ in find_hir(lp, lambda x: x.get("k") in ("MethodCall", "Call") and (x.get("callee") or "").startswith(LEX))}
+            if skipper in callees:
+                partners |= callees
+
+    def ws_test(h):
+        return find_hir(h["body"], lambda x: x.get("k") in ("Call", "MethodCall") and ((x.get("callee") or "").endswith("lexer::is_whitespace") or (x.get("callee") or "").endswith("::is_next_whitespace")))
+
+    def advances(h):
+        return find_hir(h["body"], lambda x: x.get("k") == "AssignOp" and x.get("op") == "+=" and strip(x["b"]).get("k") == "Lit" and strip(x["b"]).get("v") == 1)
+
+    def knows_comments(h):
+        if find_hir(h["body"], lambda x: x.get("k") in ("Call", "MethodCall") and x.get("callee") in partners and x.get("callee") == skipper):
+            return True
+        lits = {x.get("v") for x, _ in find_hir(h["body"], lambda x: x.get("k") == "Lit" and x.get("lit") == "char")}
+        return "/" in lits and "*" in lits
+    n_places = 0
+    for n, h in sorted(meths.items()):
+        if n in partners or not ws_test(h) or not advances(h):
+            continue
+        n_places += 1
+        short = n.rsplit("::", 1)[-1]
+        key = "layout:%s" % short
+        if knows_comments(h):
+            rep.ok(rid, key, "steps over white space and knows comments")
+        else:
+            rep.violation(rid, key, "%s steps over white space but not over comments: a comment at this place is read as tokens although the skipper in front of the token dispatch "
+                          "would have skipped it" % short, "%s:%s" % (h["file"], h["line"]))
+    if not n_places:
+        rep.ok(rid, "layout", "no other place of the lexer steps over white space")
